@@ -24,6 +24,7 @@ const (
 type vModelSub struct {
 	want   []vEv
 	active bool
+	late   bool // subscribed after the subject had terminated
 }
 
 type vSubjModel struct {
@@ -110,6 +111,7 @@ func (m *vSubjModel) subscribe() *vModelSub {
 		}
 	}
 	if m.status != 0 {
+		s.late = true
 		switch m.kind {
 		case vsReplay, vsUnicast:
 			for _, v := range m.buf {
@@ -230,7 +232,11 @@ func vC10Seq(kind int, K int) {
 		vCheckGrammar(name, rec)
 		got := rec.evs
 		want := m.subs[i].want
-		vAssert(len(got) == len(want), name+": subscriber received a different number of notifications than the definition prescribes")
+		who := name + ": subscriber"
+		if m.subs[i].late {
+			who = name + ": subscriber arriving after termination"
+		}
+		vAssert(len(got) == len(want), who+" received a different number of notifications than the definition prescribes")
 		acc := true
 		for j := range got {
 			vAssert(got[j].kind == want[j].kind, name+": notification kind differs from the definition")
